@@ -194,7 +194,9 @@ theorem lookupModule_nocrash {proj : Project} {rank : List Nat} (wf : WFacts pro
   | none =>
     simp only
     have hfo : Names.findObject (envOf s) T ≠ .indexError ∧ Names.findObject (envOf s) T ≠ .crash := by
-      unfold Names.findObject
+      suffices h : Names.findObjectOld (envOf s) T ≠ .indexError ∧ Names.findObjectOld (envOf s) T ≠ .crash from
+        ⟨Names.findObject_ne_of_old (by simp) h.1, Names.findObject_ne_of_old (by simp) h.2⟩
+      unfold Names.findObjectOld
       simp only [hof]
       cases T with
       | nil => simp
